@@ -662,8 +662,25 @@ func rulePR3(c *Ctx) *rule {
 					break
 				}
 			}
+			// a loop that hands every token to a function value (the yield of an iterator over tokens, a visitor) leaves the
+			// decision to that function: whether an ERROR ends the loop is then not visible here
+			callback := false
+			for _, lb := range f.Blocks {
+				if !l.body[lb] {
+					continue
+				}
+				for _, lin := range lb.Instrs {
+					if cs, isCall := lin.(ssa.CallInstruction); isCall && !cs.Common().IsInvoke() && cs.Common().StaticCallee() == nil {
+						if _, isBuiltin := cs.Common().Value.(*ssa.Builtin); !isBuiltin {
+							callback = true
+						}
+					}
+				}
+			}
 			if leaves {
 				r.ok(key+" ERROR-leaves", c.bpos(l.header), "an ERROR token ends the loop")
+			} else if callback {
+				r.undecided(key+" ERROR-leaves", c.bpos(l.header), "the loop hands each token to a function value: whether an ERROR token ends it is decided there")
 			} else {
 				r.bad(key+" ERROR-leaves", c.bpos(l.header), "an ERROR token does not end this token loop")
 			}
